@@ -95,3 +95,32 @@ def mk_template_ob(module_globals, name, tmpl: Tmpl, body_of_data, tier="both", 
     return Ob(name, body, tmpl.params, tier=tier, timeout=timeout, layer=layer, functions=list(functions),
               bound=(bound + " " if bound else "") + "input = " + tmpl.describe(), pre=pre, splits=splits,
               stubs=list(stubs), thorough_timeout=thorough_timeout, reach=reach)
+
+
+def exactly_one(dec, data, start, end, type_, want_value, what, obf=None, via_scan=True):
+    """the decoder alone and Multidecoder(decoders=[dec]).scan report exactly one hit of the given
+    type with exactly [start, end) and the given value (a list of byte values)"""
+    from vlib.ref.codecs import same_bytes
+    from multidecoder.multidecoder import Multidecoder
+
+    ok, hits = k_contract(dec, data, what)
+    if not ok:
+        return False
+    views = [("decoder", hits)]
+    if via_scan:
+        try:
+            tree = Multidecoder(decoders=[dec]).scan(data)
+        except Exception as e:  # noqa: BLE001
+            return hx.fail(f"{what}: scan raised {type(e).__name__}: {e}", data=data)
+        views.append(("scan", tree.children))
+    for vname, hs in views:
+        if len(hs) != 1:
+            return hx.fail(f"{what} ({vname}): expected exactly one node", data=data, hits=hs)
+        h = hs[0]
+        if not (h.start == start and h.end == end):
+            return hx.fail(f"{what} ({vname}): span is not exactly the indicator [{start}:{end}]", data=data, hit=h)
+        if h.type != type_ or (obf is not None and h.obfuscation != obf):
+            return hx.fail(f"{what} ({vname}): wrong type/label", data=data, hit=h)
+        if not same_bytes(h.value, want_value):
+            return hx.fail(f"{what} ({vname}): wrong value", data=data, hit=h)
+    return True
